@@ -10,6 +10,8 @@ R4.4  path-level / operation-level parameters are merged by (name, in) with oper
       argument names are de-duplicated with path parameters keeping the plain name
 R4.5  optional => omitted when None: required parameters use the plain entry, optional ones the conditional unpack
 R4.6  one sanitizer for URL holes and signature names
+R4.9  a supplied header parameter reaches the wire with the caller's value: in the bundled transport per-request
+      headers are layered over the transport defaults (never the other way round)          [rule shared with C17]
 R4.8  body dispatch: the variable each request template references is defined by the template emitted under the same
       content type, and the body is sent for every HTTP method that declares one
 """
@@ -162,6 +164,11 @@ def run(repo: Repo, rep: Report, tier: str) -> None:
             rep.violation("R4.6", f"{label} path-variable sanitizer", f"{fn.fq}|sanitizer|{sans}",
                           f"uses {sans} where the signature uses sanitize_method_name: the URL f-string refers to a variable the signature does not define", fn.loc())
 
+    # ---------------------------------------------------------------- R4.9 the caller's header value wins over transport defaults
+    from rules import c17
+
+    c17.layering_rule(repo, _Relabel(rep, "R4.9"), "R4.9")
+
     # ---------------------------------------------------------------- R4.8 body dispatch
     grc = rg.classes["EndpointRequestGenerator"].methods.get("generate_request_call")
     if grc is None:
@@ -229,3 +236,23 @@ def _def_text(fn: Function, e: ast.AST, depth: int = 0) -> str:
                         txt = txt.replace(x.id, f"({sub})")
             return txt
     return full(e)
+
+
+class _Relabel:
+    def __init__(self, rep, rule):
+        self.rep, self.rule = rep, rule
+
+    def ok(self, rule, *a, **k):
+        self.rep.ok(self.rule, *a, **k)
+
+    def violation(self, rule, *a, **k):
+        self.rep.violation(self.rule, *a, **k)
+
+    def require(self, *a, **k):
+        self.rep.require(*a, **k)
+
+    def error(self, *a, **k):
+        self.rep.error(*a, **k)
+
+    def count(self, *a, **k):
+        pass
